@@ -137,6 +137,7 @@ type State struct {
 	syncDepth int
 
 	tickers []int
+	sigs    []sigEntry
 	replay map[string]uint64 // replay mode: concrete values for nondets
 	viols  []Violation
 	unwindViolation bool
@@ -200,6 +201,7 @@ func (st *State) fork() *State {
 	n.trace = st.trace[:len(st.trace):len(st.trace)]
 	n.tryStack = st.tryStack[:len(st.tryStack):len(st.tryStack)]
 	n.tickers = st.tickers[:len(st.tickers):len(st.tickers)]
+	n.sigs = st.sigs[:len(st.sigs):len(st.sigs)]
 	if st.nameCtr != nil {
 		n.nameCtr = make(map[string]int, len(st.nameCtr))
 		for k, v := range st.nameCtr {
